@@ -75,11 +75,25 @@ func (i *interpreter) ready(th *thread) {
 			return
 		}
 	}
+	for _, t := range i.stalled {
+		if t == th {
+			return // runnable already (set aside by a stall decision); it is resumed when nothing else can run
+		}
+	}
 	i.runq = append(i.runq, th)
 }
 
 // scheduleNext picks the next runnable thread; cur parks (park=true) or exits.
 func (i *interpreter) scheduleNext(cur *thread, park bool) {
+	if len(i.runq) == 0 && len(i.stalled) > 0 {
+		w := i.stalled[0]
+		i.stalled = i.stalled[1:]
+		if w == cur && park {
+			return
+		}
+		i.handoff(cur, w, park)
+		return
+	}
 	if len(i.runq) == 0 {
 		// quiescence
 		if len(i.idleWait) > 0 {
@@ -125,7 +139,10 @@ func (i *interpreter) visible(fr *frame, what string) {
 	if !i.explore || i.preempts <= 0 || len(i.runq) == 0 || i.cur == nil || i.atomic > 0 {
 		return
 	}
-	conds := make([]*Term, 1+len(i.runq))
+	// alternatives: 0 = continue; 1..n = switch to runq[k-1] (current thread goes
+	// to the back of the run queue); n+1 = stall: the current thread is set
+	// aside until no other thread can run ("slow thread" schedules)
+	conds := make([]*Term, 2+len(i.runq))
 	k := i.decide("preempt:"+what, conds)
 	if k == 0 {
 		return
@@ -133,6 +150,13 @@ func (i *interpreter) visible(fr *frame, what string) {
 	i.preempts--
 	th := i.cur
 	th.top = fr
+	if k == 1+len(i.runq) {
+		i.stalled = append(i.stalled, th)
+		th.blocked = "stalled"
+		i.scheduleNext(th, true)
+		th.blocked = ""
+		return
+	}
 	next := i.runq[k-1]
 	i.runq = append(i.runq[:k-1:k-1], i.runq[k:]...)
 	i.runq = append(i.runq, th)
@@ -171,7 +195,7 @@ func (i *interpreter) spawn(fr *frame, pos token.Pos, fn value, args []value) *t
 
 // waitIdle parks the caller until no other thread can run (quiescence).
 func (i *interpreter) waitIdle(fr *frame) {
-	for len(i.runq) > 0 {
+	for len(i.runq) > 0 || len(i.stalled) > 0 {
 		th := i.cur
 		i.idleWait = append(i.idleWait, th)
 		th.blocked = "wait-idle"
